@@ -6,7 +6,7 @@ INFO = {
                "through (no path builds a later-class stage before an earlier one, every constructor is a known "
                "class, each stage's successor is the value built so far); repeated --select are wrapped in reverse "
                "and repeated --sort-by in forward order; the start/complete protocol reaches every stage on every "
-               "non-error path and end-of-input is signalled exactly once, from complete() only.",
+               "non-error path and end-of-input is signalled exactly once, from complete() only. The unique stage forwards a row iff its key was new and keys rows on the selected values; the limiter, extracted as a finite machine by partial evaluation, forwards exactly rows S..S+T-1 for skip 0..3 x take none/0..3.",
     "not_decided": "That each stage computes the right list transformation on run-time values, hence not the "
                    "equality with a reference pipeline interpreter.",
     "trusted": ["sa/tables/pipeline_order.toml (transcribed from the property statement and the CLI help)"],
